@@ -13,8 +13,11 @@ Tie (ii)  checks/lib/interleave.py: real threads running Context.get_array on ON
           order of instruction classes occurs in every finished worker.
 Tie (iii) validation on the real thing: get_array / get_df / make for lists of runs, 1..8 workers,
           single / multiple same-kind targets, cold / warm plugin cache, with / without storage,
-          1 microsecond interpreter switch interval: oracle = concatenation of sequential single-run
-          calls with the run id attached, no exception.
+          1 microsecond interpreter switch interval: oracle, run by run = rows of the sequential
+          single-run call with the run id attached, runs grouped in run-id order; a failing run raises
+          ITS exception or (ignore_errors) is omitted; no other exception.
+Every failure is filed as a violation of its own; the open findings D8 / D8b are matched per violation
+by component-pinned, whole-message regexes in known_findings.json.
 """
 from __future__ import annotations
 
@@ -43,7 +46,8 @@ ID = "C15"
 LEAN_MODULES = ["StraxModel.Props.C15"]
 TRUSTED = [
     "scripted-completion harness for multi_run (rebinding strax.utils.wait / ThreadPoolExecutor; stub exec_functions blocked on events)",
-    "line-level interleaver checks/lib/interleave.py (sys.settrace line events + baton) and the instrumented registry dict / cache attribute that log shared-state accesses",
+    "line-level interleaver checks/lib/interleave.py (sys.settrace line events + baton) and the instrumented registry dict / inner cache dicts / cache attribute that log shared-state accesses",
+    "the projection of an access log onto the model's Instr alphabet (project_program: which access is which micro-step; cache reads classified test/use by their source line; look-ups inside _make_progress_bar's try/except marked as non-failing)",
     "modelled not verified: concurrent.futures executor (FIFO work queue, `workers` tasks at a time), CPython dict semantics (insertion order, size check of iterators), GIL switching between byte codes (atomicity is assumed per source line)",
 ]
 ASSUMPTIONS = [
@@ -54,7 +58,7 @@ ASSUMPTIONS = [
     "scripted completion handles exactly one finished future per wait(); several futures finishing together are covered by the free-running stubs and by the real get_array runs (oracle only)",
     "registry model: threads are atomic per source line of context.py (finer GIL switches only add behaviours of the same kinds); an iterator step over a dict that got a new key "
     "and has its old size again is left unspecified, and runs containing such a step are not compared with the program layer",
-    "registry_safe_serialized* are theorems about a repair (a lock) that is NOT applied to /repo; they are not evidence for the current code.  What is tied to the current code: "
+    "registry_safe_if_serialized* are conditional theorems about a repair (a lock around register / resolve / clean-up) that is NOT applied to /repo; they are not evidence for the current code.  What is tied to the current code: "
     "the dict/attribute semantics (c15.replay), the program layer stepThread / Sys.run / Sys.runBlocks (c15.sched, c15.blocks on programs read off real runs), workerProg's order of "
     "instruction classes, and the hypothesis of readonly_workers_safe_partial for single-target workers on a warm cache",
 ]
